@@ -352,6 +352,12 @@ impl Key {
         expected: &hmac::Tag,
         provided: &[u8],
     ) -> Result<(), ValidationError> {
+        // RFC 8945, section 5.2.2.1: a MAC longer than the algorithm's
+        // output or shorter than the larger of 10 and half of it is a
+        // format error, whatever the local policy is.
+        if !self.algorithm().within_len_bounds(provided.len()) {
+            return Err(ValidationError::FormErr);
+        }
         if provided.len() < self.min_mac_len {
             return Err(ValidationError::BadTrunc);
         }
